@@ -1520,6 +1520,8 @@ class C08(Prop):
                     # tolerance is relative to the largest amplitude the reference passes through WITHIN this step, and every step starts
                     # from the state the previous one left (the statement is per step)
                     peak = max(1.0, float(np.max(np.abs(psi))))
+                    kappa = 1.0          # largest 2-norm condition number of a gate of this step: rounding errors of applying /
+                                         # splitting a non-unitary gate scale with it, so the tolerance does too
                     for e in exp:
                         if e[0] == "swap":
                             a, b = e[1]
@@ -1527,12 +1529,19 @@ class C08(Prop):
                         else:
                             sites = list(e[1])
                             psi = apply_local(psi, [axis[s] for s in sites], e[2].reshape([dims[s] for s in sites] * 2))
+                            sv = np.linalg.svd(np.asarray(e[2], dtype=complex).reshape(int(np.prod([dims[s] for s in sites])), -1), compute_uv=False)
+                            kappa = max(kappa, float(sv[0] / max(sv[-1], 1e-300)))
                         peak = max(peak, float(np.max(np.abs(psi))))
                     got = ss["psi"]
-                    if got.shape != psi.shape or not rel_close(got, psi, 1e-8, floor=peak):
+                    tol = max(1e-8, 100 * 2.3e-16 * kappa)
+                    if tol > 1e-5:
+                        self._stats["hist:exact-step-too-ill-conditioned-to-judge (gate condition number > 4e8)"] += 1
+                        psi = np.array(got, dtype=complex) if got.shape == psi.shape else psi
+                        continue
+                    if got.shape != psi.shape or not rel_close(got, psi, tol, floor=peak):
                         return (f"{where}: truncation disabled, but the state differs from the ordered product of the dense gates applied to the "
                                 f"state before (max diff {float(np.max(np.abs(got - psi))) if got.shape == psi.shape else 'shape'}, "
-                                f"largest amplitude {float(np.max(np.abs(psi))):.2e}, largest intermediate amplitude {peak:.2e}) ({desc})")
+                                f"largest amplitude {float(np.max(np.abs(psi))):.2e}, largest intermediate amplitude {peak:.2e}, largest gate condition number {kappa:.1e}, tolerance {tol:.1e}) ({desc})")
                     self._stats["hist:exact-step-validated"] += 1
                     psi = np.array(got, dtype=complex)
                 else:
